@@ -200,8 +200,14 @@ def run_scripts(prop, tier, seed, build, extra_env=None, tag="main"):
                              stdout=subprocess.PIPE, stderr=subprocess.STDOUT, text=True)
         procs.append((cfg, p, out))
     results = []
+    limit = int(os.environ.get("VERIF_SCRIPT_TIMEOUT", "1500" if tier == "quick" else "14400"))
     for cfg, p, out in procs:
-        so, _ = p.communicate()
+        try:
+            so, _ = p.communicate(timeout=limit)
+        except subprocess.TimeoutExpired:
+            for _, q, _ in procs:
+                q.kill()
+            infra("property script %s (%s) exceeded %d s" % (spec["script"], cfg, limit))
         if p.returncode != 0 or not os.path.exists(out):
             infra("property script %s (%s) failed rc=%s:\n%s" % (spec["script"], cfg, p.returncode, so[-4000:]))
         with open(out) as fh:
